@@ -14,6 +14,7 @@ import ChythonModel.Proofs.C03SmilesIff
 import ChythonModel.Proofs.C03Bracket
 import ChythonModel.Proofs.C03HydSmiles
 import ChythonModel.Proofs.C03StringsB
+import ChythonModel.Proofs.C03Lenient
 /-!
 # C03 — SMILES reader builds exactly the molecule the text denotes, rejects the rest
 
@@ -345,6 +346,21 @@ example : ¬ InLanguage [tC, .bond 2, .cyc 1, tC, tC, .bond 1, .cyc 1] := fun h 
 example : ¬ InLanguage [tC, .cyc 1, tC, tC] := fun h => by
   obtain ⟨⟨st, hp, _⟩, _⟩ := (accept_iff_ring_discipline_partial _ (by decide)).mpr h
   cases hp
+
+/-- **The lenient grammar** `atom (ringbond | branch)*` (`Spec.L`: ring bonds and branches after an atom in any order, as
+    RDKit and the corpus shipped with chython write them): for every tree the spec gives a graph, `parser` accepts the
+    printed tokens and returns exactly that graph. This covers the class the strict statement excludes (`C(C)1CC1`). -/
+theorem accept_sound_lenient (c : ChainL B) (g : Graph B) (hd : denoteChainL aromB c = some g) :
+    ∃ st, parse false (toToksB (printChainL c)) = .ok st ∧
+      st.atoms = g.atoms.map (fun b => strip b.1) ∧ st.types = g.atoms.map (fun b => tyOf b.1) ∧
+      st.bonds = g.bonds := parse_printL c g hd
+
+/-- `C(C)1CC1`: the ring bond is written after the branch -/
+example : (denoteChainL aromB (⟨((false, { element := [67] }), []),
+    .side .implicit ((false, { element := [67] }), []) .done
+      (.ring ⟨.none, 1⟩ (.next .implicit ((false, { element := [67] }), [])
+        (.next .implicit ((false, { element := [67] }), []) (.ring ⟨.none, 1⟩ .done))))⟩ : ChainL B)).map (·.bonds) =
+    some [(1, 0, 1), (2, 0, 1), (3, 2, 1), (3, 0, 1)] := rfl
 
 /-- **End to end, on `smiles()` itself** (the function the driver runs), for a one-word molecule string (no blank, no `>`,
     hence no CXSMILES block): `smiles` returns a molecule **iff** the string tokenizes, `parser` accepts the tokens, every
